@@ -48,6 +48,7 @@ RULES = {
 PROBES = ["other_ep_ack_while_pending", "status_retry_after_lost_ack", "reset_while_pending", "addr_value_gt_127",
           "probe_new_addr_before_commit", "probe_old_addr_after_commit", "commit_address", "commit_config",
           "abandoned_request", "other_ep_ack_after_unacked_zlp", "get_config_readback",
+          "other_device_ack_while_pending", "other_device_ack_after_unacked_zlp", "other_ep_even_number_ack_while_pending",
           "long_se0_reset", "long_se0_reset_nonzero_state", "reset_hs_capable", "suspended_reached", "reset_while_suspended",
           "reset_while_suspended_hs_capable", "reset_while_suspended_nonzero_state", "resume_from_suspend",
           "traffic_after_suspend"]
@@ -81,7 +82,9 @@ META = {
 }
 TIERS = {"quick": {"runs": 2000, "wall": 90, "shrink_budget": 48}, "thorough": {"runs": 36000, "wall": 900, "shrink_budget": 48}}
 
-DEV_CFG = {v: {"variant": v, "ep0_mps": 64, "endpoints": [{"kind": "stream_in", "ep": 1, "mps": 8}]} for v in ("V1", "V2")}
+DEV_CFG = {v: {"variant": v, "ep0_mps": 64, "endpoints": [{"kind": "stream_in", "ep": 1, "mps": 8},
+                                                         {"kind": "stream_in", "ep": 2, "mps": 8}]} for v in ("V1", "V2")}
+DATA_EPS = (1, 2)             # bulk IN endpoints that always have data (an odd and an even endpoint number)
 SLACK = 8
 RESET_CYCLES = 300            # 5 us at the sequencer's 60 MHz constants
 LONG_SE0 = 1200               # SE0 held this long is a bus reset by the input history alone (20 us @ 60 MHz, 100 us @ 12 MHz)
@@ -124,13 +127,16 @@ def _between(rng, ops, fault_free):
     for _ in range(n):
         r = rng.random()
         if r < 0.45:
-            ops.append({"op": "in", "ep": 1, "addr": "cur", "ack": True})
+            ops.append({"op": "in", "ep": rng.choice(DATA_EPS), "addr": "cur", "ack": True})
         elif r < 0.55:
-            ops.append({"op": "in", "ep": 1, "addr": "cur", "ack": False})
+            ops.append({"op": "in", "ep": rng.choice(DATA_EPS), "addr": "cur", "ack": False})
         elif r < 0.70:
-            ops.append({"op": "in", "ep": rng.choice([0, 1]), "addr": "pend", "ack": True})
+            ops.append({"op": "in", "ep": rng.choice([0, 1, 2]), "addr": "pend", "ack": True})
         elif r < 0.78:
-            ops.append({"op": "in", "ep": 1, "addr": rng.randint(0, 127), "ack": True})
+            # an IN transaction of ANOTHER device on the same bus: this device sees the token and the host's ACK (downstream
+            # traffic is broadcast), not the other device's data
+            ops.append({"op": "in", "ep": rng.choice([0, 0, 1, 2]), "addr": rng.randint(0, 127), "ack": True,
+                        "foreign_data_cycles": rng.choice([3, 6, 12, 20])})
         elif r < 0.88:
             ops.append({"op": "sof", "frame": rng.getrandbits(11)})
         else:
@@ -154,11 +160,11 @@ def _episode(rng, ops, fault_free, clean_set=False):
                 ops.append({"op": "status", "ack": True})         # the host re-issues the status IN
         # else: abandoned before the status stage
         if rng.random() < 0.7:
-            ops.append({"op": "in", "ep": 1, "addr": rng.choice(["cur", "cur", "prev", "prev"]), "ack": rng.random() < 0.8})
+            ops.append({"op": "in", "ep": rng.choice(DATA_EPS), "addr": rng.choice(["cur", "cur", "prev", "prev"]), "ack": rng.random() < 0.8})
     elif r < 0.82:
         ops.append({"op": "get_config"})
     elif r < 0.92:
-        ops.append({"op": "in", "ep": 1, "addr": rng.choice(["cur", "prev", rng.randint(0, 127)]), "ack": rng.random() < 0.8})
+        ops.append({"op": "in", "ep": rng.choice(DATA_EPS), "addr": rng.choice(["cur", "prev", rng.randint(0, 127)]), "ack": rng.random() < 0.8})
     else:
         ops.append({"op": "idle", "n": rng.randint(1, 100)})
 
@@ -379,7 +385,7 @@ class _Monitor:
                 m = self.m
                 p = m.pending
                 preg = {"addr": "address", "cfg": "config"}.get((p or {}).get("req"))
-                if m.last_event == "other_ep_ack" and p is not None and preg == reg and v == p["value"]:
+                if m.last_event in ("other_ep_ack", "other_device_ack") and p is not None and preg == reg and v == p["value"]:
                     rule = "C08.other_ep_ack_no_commit"
                 elif m.stale != "none" and m.last_event != "status_ack":
                     rule = "C08.abandoned_no_effect"
@@ -597,14 +603,28 @@ def run(scn):
                     if A == model.prev_addr and p is None:
                         probes["probe_old_addr_after_commit"] += 1
                 r = yield from x.in_(A, ep)
-                check_presence(h.t, A, ep, r, must_answer=(ep == 1))
+                check_presence(h.t, A, ep, r, must_answer=(ep in DATA_EPS))
                 if mon.dead:
                     return
+                if r["kind"] == "NONE" and A != model.addr and op["ack"] and op.get("foreign_data_cycles"):
+                    # the other device's data packet is on the upstream path only; then the host acknowledges it
+                    yield from h.idle(op["foreign_data_cycles"])
+                    if p is not None:
+                        fault("interleave_other_device")
+                        probes["other_device_ack_while_pending"] += 1
+                        if p["zlp_unacked"]:
+                            probes["other_device_ack_after_unacked_zlp"] += 1
+                    model.last_event = "other_device_ack"
+                    yield from x.handshake("ACK")
+                    yield from h.idle(4)
+                    continue
                 if is_data(r):
                     if op["ack"]:
                         if p is not None:
                             fault("interleave_other_ep")
                             probes["other_ep_ack_while_pending"] += 1
+                            if ep % 2 == 0:
+                                probes["other_ep_even_number_ack_while_pending"] += 1
                             if p["zlp_unacked"]:
                                 probes["other_ep_ack_after_unacked_zlp"] += 1
                         model.last_event = "other_ep_ack"
@@ -652,9 +672,10 @@ def run(scn):
     host = UTMIHost(script, byte_period=cfg["byte_period"], pre=cfg["pre"], post=cfg["post"],
                     txready=(cfg["txready"] if cfg["txready"] == "always" else tuple(cfg["txready"])))
     feeder = StreamFeeder("in1_", seed=len(ops))
+    feeder2 = StreamFeeder("in2_", seed=len(ops) + 77)
     per_op = 16 * (cfg["byte_period"] + 1) * 4 + 8 * 100 + 4 * cfg["rest"] + 60
     max_cycles = 400 + sum(per_op + op.get("n", 0) for op in ops)
-    log = bench.run([host, feeder, mon], max_cycles, init=init)
+    log = bench.run([host, feeder, feeder2, mon], max_cycles, init=init)
     if not host._done and not viol:
         raise RuntimeError("host script did not finish within the cycle cap")
 
